@@ -12,10 +12,13 @@ CONSTANTS
     TableIds,     \* subset of DOMAIN CacheTables
     CollarIds,    \* subset of DOMAIN CollarList
     QMax2,        \* query depths k/2, k \in 0..QMax2
+    MaxSteps,     \* length of the histories (the history is part of the state: every sequence of
+                  \* setters and queries up to this length is a distinct path of the exported graph -
+                  \* a stale cache shows only in Query, setter, Query without another setter between)
     Deviations    \* {} = Ideal ; "SurveysKeepCache", "CollarKeepsCache" = negative controls
 
-VARIABLES tab, col, cache, last
-vw == <<tab, col, cache>>
+VARIABLES tab, col, cache, hist, last
+vw == <<tab, col, cache, hist>>
 vars == <<vw, last>>
 
 CacheTables == <<
@@ -27,17 +30,21 @@ CacheTables == <<
 None == <<0, 0>>
 
 Init == /\ tab \in TableIds /\ col \in CollarIds /\ cache = None      \* Drillhole.create(collar, surveys)
+        /\ hist = <<>>
         /\ last = [act |-> "Create", args |-> <<tab, col>>, out |-> None]
 
 SetSurveys(t) ==                                                        \* drillhole.py:248-257
+    /\ Len(hist) < MaxSteps /\ hist' = Append(hist, <<"S", t>>)
     /\ tab' = t /\ UNCHANGED col
     /\ cache' = IF "SurveysKeepCache" \in Deviations THEN cache ELSE None
     /\ last' = [act |-> "SetSurveys", args |-> <<t>>, out |-> None]
 SetCollar(c) ==                                                         \* drillhole.py:99-123
+    /\ Len(hist) < MaxSteps /\ hist' = Append(hist, <<"C", c>>)
     /\ col' = c /\ UNCHANGED tab
     /\ cache' = IF "CollarKeepsCache" \in Deviations THEN cache ELSE None
     /\ last' = [act |-> "SetCollar", args |-> <<c>>, out |-> None]
 Query ==                                                                \* drillhole.py:174-190, 454-486
+    /\ Len(hist) < MaxSteps /\ hist' = Append(hist, <<"Q", 0>>)
     /\ cache' = IF cache = None THEN <<tab, col>> ELSE cache
     /\ UNCHANGED <<tab, col>>
     /\ last' = [act |-> "Query", args |-> <<>>, out |-> cache']
@@ -58,5 +65,5 @@ PosExport == [tables |-> CacheTables, collars |-> CollarList,
               path |-> [t \in 1..Len(CacheTables) |-> [c \in 1..Len(CollarList) |->
                           LET p == PathD(CollarList[c], CacheTables[t], QMax2, {})
                           IN  [k \in 1..(QMax2 + 1) |-> p[k - 1]]]]]
-ExportPos == cache # None \/ last.act # "Create" \/ PrintT(<<"POS", ToJson(PosExport)>>)
+ExportPos == hist # <<>> \/ PrintT(<<"POS", ToJson(PosExport)>>)
 =============================================================================
